@@ -22,7 +22,17 @@ ELEMS = {
     'par': ('\\par', 'pc'), 'minib': ('\\begin{minipage}{w}', 'p'), 'minie': ('\\end{minipage}', 'p'),
     'proofb': ('\\begin{proof}', 'p'),
 }
-NAMES = list(ELEMS)
+# a vanishing construct on a line of its own (indented): one alphabet symbol, so that runs of such lines are within the bound
+COMPOSITES = {'l-label': ['nli', 'label'], 'l-index': ['nli', 'index'], 'l-xxx': ['nli', 'xxx'], 'l-yyy': ['nl', 'yyy'], 'l-ltskip': ['nli', 'ltskip'],
+              'l-cmt': ['nli', 'cmt']}
+NAMES = list(ELEMS) + list(COMPOSITES)
+
+
+def flat(gap):
+    out = []
+    for n in gap:
+        out += COMPOSITES.get(n, [n])
+    return out
 PRE = ['', '\\label{k}\n', '% c\n', '\n', '\\xxx ', '{}']
 POST = ['\n', '', '\n\\label{k}\n', ' % c', '\n\n', '\\xxx']
 WS = ' \t\n'
@@ -30,6 +40,7 @@ WS = ' \t\n'
 
 def relation(gap):
     """gap: list of element names -> 'PAR' | 'SEP' | 'NONE' (TeXbook rules)"""
+    gap = flat(gap)
     src = ''.join(ELEMS[n][0] for n in gap)
     if any(ELEMS[n][1] in ('p', 'pc') for n in gap):
         return 'PAR'
@@ -64,7 +75,7 @@ def build(case):
     words = ['Waaq', 'Wabq', 'Wacq']
     s = PRE[pre] + words[0]
     for k, g in enumerate(gaps):
-        s += ''.join(ELEMS[n][0] for n in g) + words[k + 1]
+        s += ''.join(ELEMS[n][0] for n in flat(g)) + words[k + 1]
     s += POST[post]
     return s
 
@@ -82,13 +93,13 @@ class C05:
     ]
 
     def bounds(self, tier):
-        return {'gap_alphabet': {k: v[0] for k, v in ELEMS.items()}, 'max_gap_len': 3 if tier == 'quick' else 4,
+        return {'gap_alphabet': dict({k: v[0] for k, v in ELEMS.items()}, **{k: ''.join(ELEMS[x][0] for x in v) for k, v in COMPOSITES.items()}), 'max_gap_len': 3 if tier == 'quick' else 4,
                 'two_gaps': 'gap1 <= 2, gap2 <= 1' if tier == 'quick' else 'both <= 2', 'pre': PRE, 'post': POST}
 
     def cases(self, tier, seed):
         # a control word glued to the following word would be a different control word
         for c in self.all_cases(tier):
-            if not any(g and ELEMS[g[-1]][1] in ('c', 'pc') for g in c[1]):
+            if not any(g and ELEMS[flat(g)[-1]][1] in ('c', 'pc') for g in c[1]):
                 yield c
 
     def all_cases(self, tier):
@@ -131,7 +142,7 @@ class C05:
                 break
             between = plain[a + 4:b].replace('Proof.', '')
             obs_par = bool(re.search(r'\n[ \t]*\n', between))
-            if any(ELEMS[n][1] != 'w' for n in g):
+            if any(ELEMS[n][1] != 'w' for n in flat(g)):
                 nt = True
             if between.strip(WS):
                 viol.append({'clause': 'only white space between the words', 'sig': 'C05:text-between:' + self.tag(g),
@@ -148,7 +159,7 @@ class C05:
         return {'viol': viol, 'out': [plain, rels], 'nt': nt, 'tr': 1, 'cnt': {'evaluations': len(case[1])}}
 
     def tag(self, g):
-        kinds = sorted(set(n for n in g if ELEMS[n][1] != 'w'))
+        kinds = sorted(set(n for n in flat(g) if ELEMS[n][1] != 'w'))
         return '+'.join(kinds[:2]) or 'ws'
 
     def explain(self, case):
